@@ -896,6 +896,7 @@ SPECS["C13"]["theorems"] += [
     "Woodpile.Props.C13.call_arguments_fixed",
     "Woodpile.Props.C13.sc_only_holder_publishes",
     "Woodpile.Props.C13.ra_only_holder_publishes",
+    "Woodpile.Props.C13.valid_update_returns",
 ]
 SPECS["C18"]["theorems"] += [
     "Woodpile.Props.C18.sc_retry_only_on_publish_during",
